@@ -1,15 +1,17 @@
 (* C02 - Module loading terminates; only real cycles are loop errors.
-   Property theorems only; proofs live in Proofs/C02.v.
-   `lookup` (the loader) and `content` (the files) are arbitrary: the theorems hold for every
-   file set, every graph of @import/@use/@forward/load-css loads and every spelling of the urls. *)
+   Property theorems only; proofs live in Proofs/C02.v.  State of /repo after the fixes d80c9be (urls are
+   normalized before files are locked or looked up) and 2454c18 (a file loaded by meta.load-css stays
+   locked until its body is evaluated): the statement now holds at full strength.
+   `lookup` (the loader) and `content` (the files) are arbitrary = every file set, every graph of
+   @import/@use/@forward/load-css loads and every spelling of the urls; `nedge` is the load graph
+   (a directive of one file, resolved as Context::find_file resolves it, finds the other). *)
 From Coq Require Import String List Bool Arith Relations.
 From RV Require Import Gen.Candidates Model.Load Model.LoadRun Proofs.C02.
 Import ListNotations.
 Local Open Scope string_scope.
 Local Open Scope list_scope.
 
-(* a load that succeeds leaves Context.loading exactly as it found it (lock / unlock are balanced,
-   also for load-css, which unlocks before the body) *)
+(* a load that succeeds leaves Context.loading exactly as it found it (lock / unlock are balanced) *)
 Theorem C02_ok_restores_locks : forall lookup content root fuel unq st cur idc d k u s s',
   chain lookup content root (cur :: st) -> incl (loading s) (cur :: st) -> lookup cur = Some idc ->
   In d (content idc) -> dir_load d = Some (k, u) ->
@@ -17,9 +19,7 @@ Theorem C02_ok_restores_locks : forall lookup content root fuel unq st cur idc d
 Proof. exact ok_restores_locks. Qed.
 Print Assumptions C02_ok_restores_locks.
 
-(* soundness of loop errors: the key found locked is the name of a file on the current load stack,
-   so the load graph (edges = load directives as the code resolves them) has a cycle reachable
-   from the root *)
+(* (iii) soundness: a loop error exhibits a cycle of the load graph reachable from the root *)
 Theorem C02_loop_sound : forall lookup content root fuel rootid m s,
   lookup root = Some rootid ->
   run (orc_of lookup) content fuel root rootid = RErr (ELoop m) s ->
@@ -27,8 +27,7 @@ Theorem C02_loop_sound : forall lookup content root fuel rootid m s,
 Proof. exact loop_sound. Qed.
 Print Assumptions C02_loop_sound.
 
-(* an acyclic file set (every load goes to a file of smaller rank) never gives a loop error,
-   however often a file is loaded *)
+(* an acyclic file set never gives a loop error, however often a file is loaded *)
 Theorem C02_acyclic_no_loop : forall lookup content root (rank : string -> nat),
   (forall c p, nedge lookup content c p -> rank p < rank c) ->
   forall fuel rootid m s, lookup root = Some rootid ->
@@ -36,37 +35,52 @@ Theorem C02_acyclic_no_loop : forall lookup content root (rank : string -> nat),
 Proof. exact acyclic_no_loop. Qed.
 Print Assumptions C02_acyclic_no_loop.
 
-(* and it terminates: rank(root)+1 nested loads are enough *)
-Theorem C02_acyclic_terminates : forall lookup content root (rank : string -> nat),
-  (forall c p, nedge lookup content c p -> rank p < rank c) ->
-  forall fuel rootid, lookup root = Some rootid -> rank root < fuel ->
-  run (orc_of lookup) content fuel root rootid <> RFuel.
-Proof. exact acyclic_terminates. Qed.
-Print Assumptions C02_acyclic_terminates.
+(* css is returned only if nothing reachable from the root lies on a cycle: when a file finishes for the
+   first time, every file it loads has finished before *)
+Theorem C02_ok_acyclic : forall lookup content root fuel rootid s,
+  lookup root = Some rootid ->
+  run (orc_of lookup) content fuel root rootid = ROk s ->
+  forall p, clos_refl_trans _ (nedge lookup content) root p -> ~ clos_trans _ (nedge lookup content) p p.
+Proof. exact ok_acyclic. Qed.
+Print Assumptions C02_ok_acyclic.
 
-(* the full statement ("compilation terminates") is false of the faithful model *)
-Definition C02_terminates_statement : Prop :=
-  forall (w : world) (root : string), exists n, run (mem_oracle w NoFault) (assoc_body w) n root root <> RFuel.
+(* (i) termination: if the loader knows finitely many names (a file SET), |names|+1 nested loads are
+   enough, whatever the graph, the load kinds and the spellings: every file on the load stack is locked
+   under its normalized name, and no name is locked twice *)
+Theorem C02_terminates : forall lookup content root (U : list string),
+  (forall p id, lookup p = Some id -> In p U) ->
+  forall rootid, run (orc_of lookup) content (S (List.length U)) root rootid <> RFuel.
+Proof. exact terminates. Qed.
+Print Assumptions C02_terminates.
 
-(* F6: t.scss load-css'es a.scss, a.scss load-css'es itself: no amount of fuel is enough *)
-Theorem C02_refuted_loadcss : forall n,
-  run (mem_oracle w_loadcss NoFault) (assoc_body w_loadcss) n "t.scss" "t.scss" = RFuel.
-Proof. exact refuted_loadcss. Qed.
-Print Assumptions C02_refuted_loadcss.
+(* (ii) completeness: a cycle reachable from the root always ends the compilation with an error: it is
+   never absorbed into css and never a divergence *)
+Theorem C02_loop_complete : forall lookup content root (U : list string),
+  (forall p id, lookup p = Some id -> In p U) ->
+  forall rootid p, lookup root = Some rootid ->
+  clos_refl_trans _ (nedge lookup content) root p -> clos_trans _ (nedge lookup content) p p ->
+  exists e s, run (orc_of lookup) content (S (List.length U)) root rootid = RErr e s.
+Proof. exact loop_complete. Qed.
+Print Assumptions C02_loop_complete.
 
-Theorem C02_termination_refuted : ~ C02_terminates_statement.
-Proof. intros H. destruct (H w_loadcss "t.scss") as [n Hn]. apply Hn. apply refuted_loadcss. Qed.
-Print Assumptions C02_termination_refuted.
+(* instance: every in-memory world (any graph, any kinds, any spellings) terminates *)
+Definition mem_lookup (w : world) (u : string) : option string := if mem u (names w) then Some u else None.
 
-(* F5: t.scss imports "./t" (loader resolving `.` like a file system): the lock key of the k-th nested
-   load is (./)^k t.scss, which was never locked before, so no fuel is enough and no loop is reported *)
-Theorem C02_refuted_spelling : forall n,
-  run (oracle_of w_spelling MNorm) (assoc_body w_spelling) n "t.scss" "t.scss" = RFuel.
-Proof. exact refuted_spelling_all. Qed.
-Print Assumptions C02_refuted_spelling.
+Theorem C02_every_world_terminates : forall (w : world) (root : string),
+  run (orc_of (mem_lookup w)) (assoc_body w) (S (List.length (names w))) root root <> RFuel.
+Proof.
+  intros w root. apply terminates. intros p id H. unfold mem_lookup in H.
+  destruct (mem p (names w)) eqn:M; [|discriminate]. apply mem_In. exact M.
+Qed.
+Print Assumptions C02_every_world_terminates.
 
-(* the hypothesis of C02_loop_sound is satisfiable *)
-Example C02_loop_example :
-  let w := [("t.scss", [DLoad KUse "a"]); ("a.scss", [DLoad KUse "t"])] in
-  exists s, run (oracle_of w (MMem NoFault)) (assoc_body w) 5 "t.scss" "t.scss" = RErr (ELoop true) s.
+(* the former witnesses of F5 and F6 are loop errors now *)
+Example C02_former_F5 :
+  let w := [("t.scss", [DLoad KImport "./t"])] in
+  exists s, run_world w MNorm "t.scss" "t.scss" = RErr (ELoop false) s.
+Proof. eexists. vm_compute. reflexivity. Qed.
+
+Example C02_former_F6 :
+  let w := [("t.scss", [DLoad KLoadCss "a"]); ("a.scss", [DLoad KLoadCss "a"])] in
+  exists s, run_world w (MMem NoFault) "t.scss" "t.scss" = RErr (ELoop true) s.
 Proof. eexists. vm_compute. reflexivity. Qed.
